@@ -29,7 +29,7 @@ Section FwdSkeleton.
             (g_board g_unboard : bool -> bool -> bool)
             (g_egr_reached : bool -> bool -> Z -> bool)
             (g_fp_skip : bool -> Z -> Z -> bool) (g_fp_maxtr : Z -> Z -> bool) (g_fp_improve : Z -> Z -> Z -> bool)
-            (g_fp_label : bool -> bool -> Z -> Z -> bool) (g_newtau : Z -> Z -> Z).
+            (g_fp_label : bool -> bool -> Z -> Z -> bool) (g_newtau : Z -> Z -> Z) (g_tent : Z -> Z).
 
   Definition fwd_fp_step_sk (p : params) (c : conn) (enter : option conn)
              (st : (nat -> Z) * (nat -> jstep) * (nat -> option jstep)) (r : fprow) :=
@@ -86,7 +86,7 @@ Section FwdSkeleton.
                 match row_of (c_to c) (k_egrfp k) with Some r => (true, fp_time r) | None => (false, 0) end in
               let '(reached1, tent1) :=
                 if route && g_egr_reached (f_reached st) egr_found egr_time
-                then (true, c_arr c) else (f_reached st, f_tent st) in
+                then (true, g_tent (c_arr c)) else (f_reached st, f_tent st) in
               let '(tau1, steps1, egr1) :=
                 fold_left (fwd_fp_step_sk p c (o_enter ov1)) (fp_of d (c_to c)) (f_tau st, f_steps st, f_egr st) in
               {| f_tau := tau1; f_steps := steps1; f_ov := ovm; f_egr := egr1;
@@ -126,7 +126,7 @@ Section RevSkeleton.
             (g_fp_improve : Z -> Z -> Z -> Z -> bool)
             (g_fp_label : bool -> bool -> Z -> Z -> Z -> Z -> bool)
             (g_acc_after_dep : Z -> bool -> Z -> Z -> Z -> bool) (g_acc_cap : Z -> Z -> Z -> Z -> bool)
-            (g_newtaur : Z -> Z -> Z -> Z).
+            (g_newtaur : Z -> Z -> Z -> Z) (g_tent : Z -> Z -> Z).
 
   Definition rev_fp_step_sk (p : params) (k : calc) (c : conn) (minw : Z) (exitc : option conn)
              (st : (nat -> Z) * (nat -> jstep) * (nat -> option jstep)) (r : fprow) :=
@@ -198,7 +198,7 @@ Section RevSkeleton.
                 match row_of (c_from c) (k_accfp k) with Some r => (true, fp_time r) | None => (false, 0) end in
               let '(reached1, tent1) :=
                 if route && g_acc_reached (r_reached st) acc_found acc_time
-                then (true, c_dep c) else (r_reached st, r_tent st) in
+                then (true, g_tent (c_dep c) minw) else (r_reached st, r_tent st) in
               let '(taur1, steps1, acc1) :=
                 fold_left (rev_fp_step_sk p k c minw (o_exit ov1)) (rfp_of d (c_from c))
                           (r_taur st, r_steps st, r_acc st) in
@@ -235,7 +235,7 @@ End BestAccessSkeleton.
 Ltac gtie := intros; cbv beta delta [
   G.gen_fwd_first G.gen_fwd_enabled G.gen_fwd_break G.gen_fwd_accessed G.gen_fwd_reach G.gen_fwd_board G.gen_fwd_unboard
   G.gen_fwd_egr_reached G.gen_fwd_fp_skip G.gen_fwd_fp_maxtr G.gen_fwd_fp_improve G.gen_fwd_fp_label G.gen_fwd_newtau
-  G.gen_fwd_best_time G.gen_fwd_best_ok
+  G.gen_fwd_best_time G.gen_fwd_best_ok G.gen_fwd_tent G.gen_rev_tent G.gen_alt_seq_init G.gen_alt_count_init G.gen_alt_cont
   G.gen_fwdall_first G.gen_fwdall_enabled G.gen_fwdall_break G.gen_fwdall_accessed G.gen_fwdall_reach G.gen_fwdall_board
   G.gen_fwdall_unboard G.gen_fwdall_fp_skip G.gen_fwdall_fp_maxtr G.gen_fwdall_fp_improve G.gen_fwdall_fp_label G.gen_fwdall_newtau
   G.gen_rev_first G.gen_rev_enabled G.gen_rev_break G.gen_rev_reach G.gen_rev_unboard G.gen_rev_exit_first G.gen_rev_exit_replace
@@ -267,6 +267,7 @@ Lemma gen_fwd_fp_improve_spec w carr tm : G.gen_fwd_fp_improve w carr tm = (w + 
 Lemma gen_fwd_fp_label_spec same none larr carr :
   G.gen_fwd_fp_label same none larr carr = (same && (none || (larr >? carr))). Proof. gtie. Qed.
 Lemma gen_fwd_newtau_spec w carr : G.gen_fwd_newtau w carr = w + carr. Proof. gtie. Qed.
+Lemma gen_fwd_tent_spec carr : G.gen_fwd_tent carr = carr. Proof. gtie. Qed.
 Lemma gen_fwd_best_time_spec a t : G.gen_fwd_best_time a t = a + t. Proof. gtie. Qed.
 Lemma gen_fwd_best_ok_spec t kdep maxtt best :
   G.gen_fwd_best_ok t kdep maxtt best = ((t >=? 0) && (t - kdep <=? maxtt) && (t <? best) && (t <? MAX_INT)). Proof. gtie. Qed.
@@ -314,6 +315,7 @@ Lemma gen_rev_acc_after_dep_spec kdep found cdep time minw :
 Lemma gen_rev_acc_cap_spec kdep maxfw cdep time :
   G.gen_rev_acc_cap kdep maxfw cdep time = ((kdep =? -1) || (maxfw <=? 0) || (cdep - kdep - time <=? maxfw)). Proof. gtie. Qed.
 Lemma gen_rev_newtaur_spec cdep w minw : G.gen_rev_newtaur cdep w minw = cdep - w - minw. Proof. gtie. Qed.
+Lemma gen_rev_tent_spec cdep minw : G.gen_rev_tent cdep minw = cdep - minw. Proof. gtie. Qed.
 Lemma gen_rev_best_time_spec dep time minw : G.gen_rev_best_time dep time minw = dep - time - minw. Proof. gtie. Qed.
 Lemma gen_rev_best_ok_spec t karr maxtt best :
   G.gen_rev_best_ok t karr maxtt best = ((t >=? 0) && (karr - t <=? maxtt) && (t >? best) && (t <? MAX_INT)). Proof. gtie. Qed.
@@ -355,8 +357,9 @@ Section FwdTie.
             (g_board g_unboard : bool -> bool -> bool)
             (g_egr_reached : bool -> bool -> Z -> bool)
             (g_fp_skip : bool -> Z -> Z -> bool) (g_fp_maxtr : Z -> Z -> bool) (g_fp_improve : Z -> Z -> Z -> bool)
-            (g_fp_label : bool -> bool -> Z -> Z -> bool) (g_newtau : Z -> Z -> Z).
+            (g_fp_label : bool -> bool -> Z -> Z -> bool) (g_newtau : Z -> Z -> Z) (g_tent : Z -> Z).
   Variable route : bool.
+  Hypothesis H_tent : route = true -> forall carr, g_tent carr = carr.
   Hypothesis H_first : forall cdep kdep minacc, g_first cdep kdep minacc = (cdep >=? kdep + minacc).
   Hypothesis H_enabled : forall dis, g_enabled dis = negb dis.
   Hypothesis H_break : forall reached maxegr tent cdep kdep maxtt,
@@ -395,7 +398,7 @@ Section FwdTie.
 
   Lemma fwd_step_sk_eq d p k st c :
     fwd_step_sk g_first g_enabled g_break g_accessed g_reach g_board g_unboard g_egr_reached
-                g_fp_skip g_fp_maxtr g_fp_improve g_fp_label g_newtau route d p k st c
+                g_fp_skip g_fp_maxtr g_fp_improve g_fp_label g_newtau g_tent route d p k st c
     = fwd_step d p k (negb route) st c.
   Proof.
     unfold fwd_step_sk, fwd_step.
@@ -413,14 +416,14 @@ Section FwdTie.
       match goal with |- (if ?b then _ else _) = _ => destruct b end; [|reflexivity].
       rewrite fwd_fp_fold_sk_eq.
       destruct route; [|destruct (row_of (c_to c) (k_egrfp k)); reflexivity].
-      destruct (row_of (c_to c) (k_egrfp k)) as [er|]; rewrite (H_egr_reached eq_refl); cbn [andb]; rewrite ?andb_assoc; reflexivity.
+      destruct (row_of (c_to c) (k_egrfp k)) as [er|]; rewrite (H_egr_reached eq_refl), ?(H_tent eq_refl); cbn [andb]; rewrite ?andb_assoc; reflexivity.
     - rewrite !andb_false_r. cbn [andb negb orb]. rewrite !andb_true_r.
       destruct (is_some (o_enter (f_ov st (c_trip c))) || (f_tau st (c_from c) <=? c_dep c - minw_eff p c)); [|reflexivity].
       rewrite H_unboard.
       match goal with |- (if ?b then _ else _) = _ => destruct b end; [|reflexivity].
       rewrite fwd_fp_fold_sk_eq.
       destruct route; [|destruct (row_of (c_to c) (k_egrfp k)); reflexivity].
-      destruct (row_of (c_to c) (k_egrfp k)) as [er|]; rewrite (H_egr_reached eq_refl); cbn [andb]; rewrite ?andb_assoc; reflexivity.
+      destruct (row_of (c_to c) (k_egrfp k)) as [er|]; rewrite (H_egr_reached eq_refl), ?(H_tent eq_refl); cbn [andb]; rewrite ?andb_assoc; reflexivity.
   Qed.
 End FwdTie.
 
@@ -454,8 +457,9 @@ Section RevTie.
             (g_fp_improve : Z -> Z -> Z -> Z -> bool)
             (g_fp_label : bool -> bool -> Z -> Z -> Z -> Z -> bool)
             (g_acc_after_dep : Z -> bool -> Z -> Z -> Z -> bool) (g_acc_cap : Z -> Z -> Z -> Z -> bool)
-            (g_newtaur : Z -> Z -> Z -> Z).
+            (g_newtaur : Z -> Z -> Z -> Z) (g_tent : Z -> Z -> Z).
   Variable route : bool.
+  Hypothesis H_tent : route = true -> forall cdep minw, g_tent cdep minw = cdep - minw.
   Hypothesis H_first : forall carr karr minegr, g_first carr karr minegr = (carr <=? karr - (if route then minegr else 0)).
   Hypothesis H_enabled : forall us dis, g_enabled us dis = (us && negb dis).
   Hypothesis H_break : forall reached maxacc tent carr karr maxtt,
@@ -509,7 +513,7 @@ Section RevTie.
 
   Lemma rev_step_sk_eq d p k st c :
     rev_step_sk g_first g_enabled g_break g_reach g_unboard g_exit_first g_exit_replace g_exit_replace_time g_board
-                g_acc_reached g_fp_skip g_fp_maxtr g_fp_improve g_fp_label g_acc_after_dep g_acc_cap g_newtaur
+                g_acc_reached g_fp_skip g_fp_maxtr g_fp_improve g_fp_label g_acc_after_dep g_acc_cap g_newtaur g_tent
                 route d p k st c
     = rev_step d p k (negb route) st c.
   Proof.
@@ -550,7 +554,7 @@ Section RevTie.
     destruct (c_cb c && is_some (o_exit (ov1_model p st c))); [|reflexivity].
     rewrite rev_fp_fold_sk_eq.
     destruct route; [|destruct (row_of (c_from c) (k_accfp k)); reflexivity].
-    destruct (row_of (c_from c) (k_accfp k)) as [ar|]; rewrite (H_acc_reached eq_refl); cbn [andb]; rewrite ?andb_assoc; reflexivity.
+    destruct (row_of (c_from c) (k_accfp k)) as [ar|]; rewrite (H_acc_reached eq_refl), ?(H_tent eq_refl); cbn [andb]; rewrite ?andb_assoc; reflexivity.
   Qed.
 End RevTie.
 
@@ -593,28 +597,28 @@ End BestTie.
 Definition fwd_step_code (d : data) (p : params) (k : calc) (st : fstate) (c : conn) : fstate :=
   fwd_step_sk G.gen_fwd_first G.gen_fwd_enabled G.gen_fwd_break G.gen_fwd_accessed G.gen_fwd_reach G.gen_fwd_board
               G.gen_fwd_unboard G.gen_fwd_egr_reached G.gen_fwd_fp_skip G.gen_fwd_fp_maxtr G.gen_fwd_fp_improve
-              G.gen_fwd_fp_label G.gen_fwd_newtau true d p k st c.
+              G.gen_fwd_fp_label G.gen_fwd_newtau G.gen_fwd_tent true d p k st c.
 Definition fwdall_step_code (d : data) (p : params) (k : calc) (st : fstate) (c : conn) : fstate :=
   fwd_step_sk G.gen_fwdall_first G.gen_fwdall_enabled G.gen_fwdall_break G.gen_fwdall_accessed G.gen_fwdall_reach
               G.gen_fwdall_board G.gen_fwdall_unboard (fun _ _ _ => false) G.gen_fwdall_fp_skip G.gen_fwdall_fp_maxtr
-              G.gen_fwdall_fp_improve G.gen_fwdall_fp_label G.gen_fwdall_newtau false d p k st c.
+              G.gen_fwdall_fp_improve G.gen_fwdall_fp_label G.gen_fwdall_newtau (fun x => x) false d p k st c.
 Definition rev_step_code (d : data) (p : params) (k : calc) (st : rstate) (c : conn) : rstate :=
   rev_step_sk G.gen_rev_first G.gen_rev_enabled G.gen_rev_break G.gen_rev_reach G.gen_rev_unboard G.gen_rev_exit_first
               G.gen_rev_exit_replace G.gen_rev_exit_replace_time G.gen_rev_board G.gen_rev_acc_reached G.gen_rev_fp_skip
               G.gen_rev_fp_maxtr G.gen_rev_fp_improve G.gen_rev_fp_label G.gen_rev_acc_after_dep G.gen_rev_acc_cap
-              G.gen_rev_newtaur true d p k st c.
+              G.gen_rev_newtaur G.gen_rev_tent true d p k st c.
 Definition revall_step_code (d : data) (p : params) (k : calc) (st : rstate) (c : conn) : rstate :=
   rev_step_sk G.gen_revall_first G.gen_revall_enabled G.gen_revall_break G.gen_revall_reach G.gen_revall_unboard
               G.gen_revall_exit_first G.gen_revall_exit_replace G.gen_revall_exit_replace_time G.gen_revall_board
               (fun _ _ _ => false) G.gen_revall_fp_skip G.gen_revall_fp_maxtr G.gen_revall_fp_improve G.gen_revall_fp_label
-              G.gen_revall_acc_after_dep G.gen_revall_acc_cap G.gen_revall_newtaur false d p k st c.
+              G.gen_revall_acc_after_dep G.gen_revall_acc_cap G.gen_revall_newtaur (fun x _ => x) false d p k st c.
 
 (* the model's forward step (route query) is the skeleton with the guards of forwardCalculation as they are written now *)
 Theorem fwd_step_tie : forall d p k st c, fwd_step_code d p k st c = fwd_step d p k false st c.
 Proof.
   intros. unfold fwd_step_code.
-  apply (fwd_step_sk_eq _ _ _ _ _ _ _ _ _ _ _ _ _ true); intros.
-  - apply gen_fwd_first_spec. - apply gen_fwd_enabled_spec. - rewrite gen_fwd_break_spec. reflexivity.
+  apply (fwd_step_sk_eq _ _ _ _ _ _ _ _ _ _ _ _ _ _ true); intros.
+  - apply gen_fwd_tent_spec. - apply gen_fwd_first_spec. - apply gen_fwd_enabled_spec. - rewrite gen_fwd_break_spec. reflexivity.
   - apply gen_fwd_accessed_spec. - apply gen_fwd_reach_spec. - apply gen_fwd_board_spec. - apply gen_fwd_unboard_spec.
   - apply gen_fwd_egr_reached_spec. - apply gen_fwd_fp_skip_spec. - apply gen_fwd_fp_maxtr_spec.
   - apply gen_fwd_fp_improve_spec. - apply gen_fwd_fp_label_spec. - apply gen_fwd_newtau_spec.
@@ -624,8 +628,8 @@ Qed.
 Theorem fwdall_step_tie : forall d p k st c, fwdall_step_code d p k st c = fwd_step d p k true st c.
 Proof.
   intros. unfold fwdall_step_code.
-  apply (fwd_step_sk_eq _ _ _ _ _ _ _ _ _ _ _ _ _ false); intros.
-  - apply gen_fwdall_first_spec. - apply gen_fwdall_enabled_spec. - rewrite gen_fwdall_break_spec. reflexivity.
+  apply (fwd_step_sk_eq _ _ _ _ _ _ _ _ _ _ _ _ _ _ false); intros.
+  - discriminate. - apply gen_fwdall_first_spec. - apply gen_fwdall_enabled_spec. - rewrite gen_fwdall_break_spec. reflexivity.
   - apply gen_fwdall_accessed_spec. - apply gen_fwdall_reach_spec. - apply gen_fwdall_board_spec. - apply gen_fwdall_unboard_spec.
   - discriminate. - apply gen_fwdall_fp_skip_spec. - apply gen_fwdall_fp_maxtr_spec.
   - apply gen_fwdall_fp_improve_spec. - apply gen_fwdall_fp_label_spec. - apply gen_fwdall_newtau_spec.
@@ -634,8 +638,8 @@ Qed.
 Theorem rev_step_tie : forall d p k st c, rev_step_code d p k st c = rev_step d p k false st c.
 Proof.
   intros. unfold rev_step_code.
-  apply (rev_step_sk_eq _ _ _ _ _ _ _ _ _ _ _ _ _ _ _ _ _ true); intros.
-  - apply gen_rev_first_spec. - apply gen_rev_enabled_spec. - rewrite gen_rev_break_spec. reflexivity.
+  apply (rev_step_sk_eq _ _ _ _ _ _ _ _ _ _ _ _ _ _ _ _ _ _ true); intros.
+  - apply gen_rev_tent_spec. - apply gen_rev_first_spec. - apply gen_rev_enabled_spec. - rewrite gen_rev_break_spec. reflexivity.
   - apply gen_rev_reach_spec. - apply gen_rev_unboard_spec. - apply gen_rev_exit_first_spec.
   - apply gen_rev_exit_replace_spec. - apply gen_rev_exit_replace_time_spec. - apply gen_rev_board_spec.
   - apply gen_rev_acc_reached_spec. - apply gen_rev_fp_skip_spec. - apply gen_rev_fp_maxtr_spec.
@@ -646,8 +650,8 @@ Qed.
 Theorem revall_step_tie : forall d p k st c, revall_step_code d p k st c = rev_step d p k true st c.
 Proof.
   intros. unfold revall_step_code.
-  apply (rev_step_sk_eq _ _ _ _ _ _ _ _ _ _ _ _ _ _ _ _ _ false); intros.
-  - rewrite gen_revall_first_spec. lia. - apply gen_revall_enabled_spec. - rewrite gen_revall_break_spec. reflexivity.
+  apply (rev_step_sk_eq _ _ _ _ _ _ _ _ _ _ _ _ _ _ _ _ _ _ false); intros.
+  - discriminate. - rewrite gen_revall_first_spec. lia. - apply gen_revall_enabled_spec. - rewrite gen_revall_break_spec. reflexivity.
   - apply gen_revall_reach_spec. - apply gen_revall_unboard_spec. - apply gen_revall_exit_first_spec.
   - apply gen_revall_exit_replace_spec. - apply gen_revall_exit_replace_time_spec. - apply gen_revall_board_spec.
   - discriminate. - apply gen_revall_fp_skip_spec. - apply gen_revall_fp_maxtr_spec.
@@ -660,3 +664,18 @@ Proof. intros. apply best_egress_sk_eq; intros; [apply gen_fwd_best_time_spec | 
 
 Theorem best_access_tie : forall p k st, best_access_sk G.gen_rev_best_time G.gen_rev_best_ok p k st = best_access p k st.
 Proof. intros. apply best_access_sk_eq; intros; [apply gen_rev_best_time_spec | apply gen_rev_best_ok_spec]. Qed.
+
+(* ---------------------------------------------------------------------------------------------- *)
+(* 5. alternativesRouting: the two counters start where the model starts them (one increment after the first
+      calculation is part of the hand-written skeleton) and one more alternative is calculated under the model's
+      condition                                                                                       *)
+From TrV Require Import Calc.
+Lemma gen_alt_init_tie : G.gen_alt_seq_init + 1 = 2 /\ G.gen_alt_count_init + 1 = 2.
+Proof. gtie. Qed.
+Lemma gen_alt_cont_spec count maxalt seq maxvalid :
+  G.gen_alt_cont count maxalt seq maxvalid = ((count <? maxalt) && (seq - 1 <? maxvalid)).
+Proof. gtie. Qed.
+Theorem alt_loop_guard_tie : forall st : alt_st,
+  G.gen_alt_cont (a_count st) MAX_ALTERNATIVES (a_seq st) MAX_VALID_ALTERNATIVES =
+  ((a_count st <? MAX_ALTERNATIVES) && (a_seq st - 1 <? MAX_VALID_ALTERNATIVES)).
+Proof. intros. apply gen_alt_cont_spec. Qed.
